@@ -1030,12 +1030,25 @@ pub fn run_one(prefix: &[usize], cfg: &Config, f: impl FnOnce() + Send + 'static
     let mut st = lock();
     st.aborting = true;
     sched().cv.notify_all();
-    let deadline = Instant::now() + Duration::from_secs(20);
+    // the threads leave by unwinding; on a loaded machine that can take long, so the time-out looks at
+    // whether anything is still runnable, not only at the clock
+    let t_start = Instant::now();
+    let me = unsafe { libc::syscall(libc::SYS_gettid) } as i64;
+    let mut idle_since: Option<Instant> = None;
     while st.live_os_threads > 0 {
         let (g, _) = sched().cv.wait_timeout(st, Duration::from_millis(20)).unwrap_or_else(|e| e.into_inner());
         st = g;
         sched().cv.notify_all();
-        if Instant::now() > deadline {
+        let mut expired = false;
+        if t_start.elapsed() > Duration::from_secs(20) {
+            if any_other_thread_runnable(me) {
+                idle_since = None;
+            } else if idle_since.is_none() {
+                idle_since = Some(Instant::now());
+            }
+            expired = idle_since.map_or(false, |t| t.elapsed() > Duration::from_secs(10)) || t_start.elapsed() > Duration::from_secs(300);
+        }
+        if expired {
             eprintln!("detsched: teardown timed out, {} threads left", st.live_os_threads);
             std::process::exit(2);
         }
